@@ -265,9 +265,31 @@ impl Property for C10 {
     }
     fn tape_len(&self, tier: Tier) -> usize { tier.pick(150, 300) }
     fn cases(&self, tier: Tier) -> u32 { tier.pick(200000, 4000000) }
-    fn required_labels(&self, _tier: Tier) -> Vec<&'static str> { vec!["model:ok", "model:error", "shadowing", "forward_ref", "redeclared", "const_barrier_use", "renamed_compiled"] }
+    fn required_labels(&self, _tier: Tier) -> Vec<&'static str> { vec!["model:ok", "model:error", "shadowing", "forward_ref", "redeclared", "const_barrier_use", "renamed_compiled", "two-languages", "two-languages:same-spelling"] }
 
     fn generate(&self, tape: &mut Tape, tier: Tier, _known: &Known) -> Value {
+        if tape.chance(1, 8) {
+            // instruction aliases of two languages in one file (pre-TH10 ECL subs and timelines): each alias is visible in its own
+            // language only, whatever the other language calls its instructions -- so spelling the two aliases alike or not
+            // must not change the result
+            use crate::gen::files::{cached_lang, ECL_GAMES};
+            let game = *tape.pick(ECL_GAMES);
+            let pick_op = |l: &crate::gen::files::RealLang, tape: &mut Tape| -> Option<(u16, String)> {
+                let ops: Vec<u16> = l.sigs.iter().filter(|(op, sig)| !l.intrinsic_ops.contains(op) && !sig.params.iter().any(|p| matches!(p.kind, crate::model::codec::PKind::Off | crate::model::codec::PKind::Time) || p.is_string()) && sig.real_params().iter().all(|p| p.ch != 'E' && p.ch != 'n' && p.ch != 'N' && !p.arg0 || true)).map(|(o, _)| *o).collect();
+                if ops.is_empty() { return None; }
+                let op = *tape.pick(&ops);
+                let args: Vec<String> = l.sigs[&op].real_params().iter().map(|p| if p.is_float() { "1.5".to_string() } else { "3".to_string() }).collect();
+                Some((op, args.join(", ")))
+            };
+            let ecl = cached_lang(game, truth::LanguageKey::Ecl);
+            let tl = cached_lang(game, truth::LanguageKey::Timeline);
+            if let (Some((eop, eargs)), Some((top, targs))) = (pick_op(&ecl, tape), pick_op(&tl, tape)) {
+                let pool = ["spawn", "fire", "wait"];
+                let (ne, nt) = (*tape.pick(&pool), *tape.pick(&pool));
+                let use_in = tape.below(3); // 0: both, 1: sub only, 2: timeline only
+                return json!({"mode": "two-languages", "game": game, "ecl_op": eop, "ecl_args": eargs, "tl_op": top, "tl_args": targs, "ecl_name": ne, "tl_name": nt, "use_in": use_in});
+            }
+        }
         let mut names: Vec<&str> = POOL.to_vec();
         names.extend(ALIASES); names.extend(BUILTINS);
         // biased pool: mostly the small pool so that collisions are frequent
@@ -279,6 +301,7 @@ impl Property for C10 {
     }
 
     fn check(&self, case: &Value, ctx: &mut CheckCtx) -> Outcome {
+        if case["mode"] == "two-languages" { return check_two_languages(case, ctx); }
         let tree = s_from_json(&case["tree"]);
         let mut text = String::from("{\n"); print_block(&tree, 1, &mut text); text.push_str("}\n");
         let m = run_model(&tree);
@@ -340,4 +363,36 @@ impl Property for C10 {
             (Err(x), Ok(_)) => Outcome::Fail(Failure::new("c10:renaming-fixes-compilation", format!("{}\n{}\n---\n{}", x, text, text2))),
         }
     }
+}
+
+
+/// Aliases of two languages in one file: compile with the given (possibly identical) spellings, with distinct fresh
+/// spellings, and with raw `ins_N` syntax; all three must agree (Ok/Err and bytes).
+fn check_two_languages(case: &Value, ctx: &mut CheckCtx) -> Outcome {
+    use crate::files::{self, Fmt};
+    let game = case["game"].as_str().unwrap();
+    let g = files::game_from_str(game);
+    let (eop, top) = (case["ecl_op"].as_u64().unwrap(), case["tl_op"].as_u64().unwrap());
+    let (eargs, targs) = (case["ecl_args"].as_str().unwrap(), case["tl_args"].as_str().unwrap());
+    let use_in = case["use_in"].as_u64().unwrap_or(0);
+    ctx.label("two-languages");
+    if case["ecl_name"] == case["tl_name"] { ctx.label("two-languages:same-spelling"); ctx.nontrivial(); }
+    let build = |ne: &str, nt: &str, raw: bool| -> (String, Vec<String>) {
+        let ecall = if raw { format!("ins_{}({});", eop, eargs) } else { format!("{}({});", ne, eargs) };
+        let tcall = if raw { format!("ins_{}({});", top, targs) } else { format!("{}({});", nt, targs) };
+        let text = format!("script timeline0 {{\n{}}}\n\nvoid Sub0() {{\n{}}}\n", if use_in != 1 { format!("    {}\n", tcall) } else { String::new() }, if use_in != 2 { format!("    {}\n", ecall) } else { String::new() });
+        let map = format!("!eclmap\n!ins_names\n{} {}\n!timeline_ins_names\n{} {}\n", eop, ne, top, nt);
+        (text, if raw { vec![] } else { vec![map] })
+    };
+    let run = |text: &str, maps: &[String]| tx::with_truth(|truth| files::compile_file(truth, Fmt::Ecl, g, text.as_bytes(), maps, vec![]).map(|c| c.bytes).map_err(|s| format!("{:?}: {}", s, tx::diags(truth).lines().take(6).collect::<Vec<_>>().join(" / "))));
+    let (t1, m1) = build(case["ecl_name"].as_str().unwrap(), case["tl_name"].as_str().unwrap(), false);
+    let (t2, m2) = build("aliasForEcl", "aliasForTimeline", false);
+    let (t3, m3) = build("", "", true);
+    let (r1, r2, r3) = (run(&t1, &m1), run(&t2, &m2), run(&t3, &m3));
+    let same = |a: &Result<Vec<u8>, String>, b: &Result<Vec<u8>, String>| match (a, b) { (Ok(x), Ok(y)) => x == y, (Err(_), Err(_)) => true, _ => false };
+    if !same(&r1, &r2) || !same(&r2, &r3) {
+        let d = |r: &Result<Vec<u8>, String>| match r { Ok(b) => format!("ok, {} bytes", b.len()), Err(e) => format!("error: {}", e.chars().take(300).collect::<String>()) };
+        return Outcome::Fail(Failure::new("c10:two-languages:spelling-changes-the-result", format!("game {}: the same program gives different results depending on how the instruction aliases of the two languages are spelled\n  as written : {}\n  fresh names: {}\n  raw ins_N  : {}\n--- mapfile:\n{}--- source:\n{}", game, d(&r1), d(&r2), d(&r3), m1[0], t1)));
+    }
+    Outcome::Pass
 }
